@@ -85,15 +85,17 @@ var (
 	setDyadic2   = SetChoice{Spec: dy(2, 16, 0), Bases: []int{0}}
 	setDyadic4   = SetChoice{Spec: dy(4, 16, 0), Bases: []int{0, 1, 2}}
 	setDyadicNeg = SetChoice{Spec: dy(3, 16, -8), Bases: []int{0, 1}}
-	setDyadic256 = SetChoice{Spec: grid.Spec{Depth: 3, Cell: 0.5, Origin: 100, TileWidth: 256}, Bases: []int{0, 1}}
-	setRDdeep    = SetChoice{Spec: grid.Spec{Name: "NetherlandsRDNewQuad"}, Bases: []int{9, 10, 11, 12}}
-	setRDshallow = SetChoice{Spec: grid.Spec{Name: "NetherlandsRDNewQuad"}, Bases: []int{3}}
-	setWMdeep    = SetChoice{Spec: grid.Spec{Name: "WebMercatorQuad"}, Bases: []int{12, 13, 14}}
-	setWMshallow = SetChoice{Spec: grid.Spec{Name: "WebMercatorQuad"}, Bases: []int{5}}
-	setETRS      = SetChoice{Spec: grid.Spec{Name: "EuropeanETRS89_LAEAQuad"}, Bases: []int{8, 10}}
+	// a deep, evenly dividing dyadic set: extent 2^22 units, tile 1, ids up to 27 = level 31 (2^31 pixels per axis)
+	setDyadicDeep = SetChoice{Spec: dy(27, 0.03125, 0), Bases: []int{22, 23, 24, 25}}
+	setDyadic256  = SetChoice{Spec: grid.Spec{Depth: 3, Cell: 0.5, Origin: 100, TileWidth: 256}, Bases: []int{0, 1}}
+	setRDdeep     = SetChoice{Spec: grid.Spec{Name: "NetherlandsRDNewQuad"}, Bases: []int{9, 10, 11, 12}}
+	setRDshallow  = SetChoice{Spec: grid.Spec{Name: "NetherlandsRDNewQuad"}, Bases: []int{3}}
+	setWMdeep     = SetChoice{Spec: grid.Spec{Name: "WebMercatorQuad"}, Bases: []int{12, 13, 14}}
+	setWMshallow  = SetChoice{Spec: grid.Spec{Name: "WebMercatorQuad"}, Bases: []int{5}}
+	setETRS       = SetChoice{Spec: grid.Spec{Name: "EuropeanETRS89_LAEAQuad"}, Bases: []int{8, 10}}
 )
 
-var defaultSets = []SetChoice{setDyadic2, setDyadic2, setDyadic2, setDyadic4, setDyadicNeg, setDyadic256, setRDdeep, setRDdeep, setRDshallow, setWMdeep, setWMdeep, setWMshallow, setETRS}
+var defaultSets = []SetChoice{setDyadic2, setDyadic2, setDyadic2, setDyadic4, setDyadicNeg, setDyadic256, setDyadicDeep, setRDdeep, setRDdeep, setRDshallow, setWMdeep, setWMdeep, setWMshallow, setETRS}
 
 // Profile steers the generation of snapping cases for one property.
 type Profile struct {
@@ -103,6 +105,7 @@ type Profile struct {
 	RoundOnly bool // only grids whose extent divides evenly at the deepest requested level
 	AllIDs    bool // request the whole window instead of a random subset
 	NoBig     bool // never draw the large generator
+	Huge      bool // draw the huge generator (sheet with hundreds of holes) in 1 of 8000 cases
 	MinIDs    int
 }
 
@@ -162,6 +165,9 @@ func genSnapCase(rng *fw.Rng, pr *Profile) (*SnapCase, string) {
 	if !pr.NoBig && rng.Chance(1, 40) {
 		kind = "big" // structured / large inputs at a low rate (they cost 50-500x a small case)
 	}
+	if pr.Huge && rng.Chance(1, 8000) {
+		kind = "huge" // thousands of vertices, hundreds of rings: a handful per run
+	}
 	W := int64(12 + rng.Intn(40))
 	var lp gen.Poly
 	var rings [][]P
@@ -183,7 +189,18 @@ func genSnapCase(rng *fw.Rng, pr *Profile) (*SnapCase, string) {
 		return nil, "window-too-large"
 	}
 	var px, py int64
-	switch rng.Intn(4) {
+	switch rng.Intn(5) {
+	case 4: // next to a self-similar spot of the quadtree: a corner, the middle of a side, or the centre of the extent
+		spot := func() int64 {
+			switch rng.Intn(3) {
+			case 0:
+				return lowpx
+			case 1:
+				return n/2 - rng.Int63n(2)*wpx
+			}
+			return n - wpx - 1
+		}
+		px, py = spot(), spot()
 	case 0: // anywhere
 		px, py = lowpx+rng.Int63n(n-wpx-lowpx), lowpx+rng.Int63n(n-wpx-lowpx)
 	case 1: // typical place
